@@ -75,6 +75,7 @@ fn sources(prop: &str) -> Vec<Source> {
         "C14" => vec![Source::Staking, Source::CfgFuzz],
         "C16" => vec![Source::Staking, Source::Staking, Source::Staking, Source::Treasury, Source::CfgFuzz, Source::Migr],
         "C18" => vec![Source::Staking, Source::Migr, Source::Migr, Source::Treasury],
+        "C19" => vec![Source::Staking, Source::Staking, Source::Staking, Source::CfgFuzz],
         _ => vec![Source::Staking],
     }
 }
